@@ -310,7 +310,11 @@ fn explore_config(c: &Config, workers: usize, sink: &Sink, a: &Args, total_execs
 }
 
 /// free-running searches in pools of several sizes must give the controlled outcome
-fn free_running(c: &Config, expected: &BTreeSet<String>, sink: &Sink) -> u64 {
+fn free_running(c: &Config, expected: &BTreeSet<String>, sink: &Sink, a: &Args) -> u64 {
+    crate::report::with_hang_watchdog("C09", &a.tier, a.seed, "free-running-search-hangs", format!("free-running searches of config {} ({} depth {}) in pools of 1..64 threads", c.name, c.fen, c.depth), 240, || free_running_inner(c, expected, sink))
+}
+
+fn free_running_inner(c: &Config, expected: &BTreeSet<String>, sink: &Sink) -> u64 {
     let pos = Pos::from_fen(c.fen).unwrap();
     let mut n = 0;
     for size in [1usize, 2, 3, 8, 16, 64] {
@@ -355,7 +359,7 @@ pub fn run(a: &Args) -> i32 {
         match explore_config(c, workers, &sink, a, &total) {
             Ok(r) => {
                 let expected: BTreeSet<String> = r.outcomes.keys().cloned().collect();
-                free_runs += free_running(c, &expected, &sink);
+                free_runs += free_running(c, &expected, &sink, a);
                 rep.states += r.executions;
                 rep.transitions += r.steps_total;
                 rep.traces += r.executions;
@@ -377,13 +381,19 @@ pub fn run(a: &Args) -> i32 {
             }
         }
     }
+    // lock-granular part: model extracted from the real lock traces, explored by spin
+    if let Err(e) = crate::props::c09_locks::run(&mut rep, &sink) {
+        eprintln!("MACHINERY-ERROR: {}", e);
+        return 2;
+    }
     chess::verif_hooks::set_observer(None);
     rep.add("free_running_cross_checks", free_runs);
+    samples.extend(rep.samples.drain(..));
     rep.samples = samples;
     rep.bounds = json!({"granularity": "one scheduling point per shared-cache read / store (counter bumps commute and are not points)", "bounds": "per configuration: see samples (preemption bound, order deviation bound)", "pool_sizes_cross_checked": [1, 2, 3, 8, 16, 64]});
     rep.rule = "execution = one real alpha_beta_search under the controlled scheduler; all schedules within the preemption / deviation bounds are enumerated by stateless re-execution; distinct outcomes, final caches and interleavings are counted".into();
     rep.assumptions = vec![
-        "interleavings finer than one shared-cache operation (individual lock acquisitions) are not explored; each operation is one critical section, and the nested cache-read -> hit-counter lock order is the same everywhere".into(),
+        "interleavings finer than one shared-cache operation are not explored on the code itself; at lock granularity a Promela model generated from the lock shapes observed on the real search is explored exhaustively by spin (deadlock freedom only), for writer- and reader-preferring locks and 3 tasks".into(),
         "in reduced configurations only operations on keys touched by two tasks (classification iterated to a fixpoint) are choice points".into(),
         "reduced LRU capacity for generators (hook)".into(),
     ];
@@ -392,6 +402,9 @@ pub fn run(a: &Args) -> i32 {
 }
 
 pub fn replay(v: &serde_json::Value) -> i32 {
+    if v["extra"]["kind"].as_str() == Some("c09-locks") {
+        return crate::props::c09_locks::replay(v);
+    }
     use_small_generators();
     chess::verif_hooks::set_observer(Some(Arc::new(Router)));
     let name = v["extra"]["config"].as_str().unwrap_or("");
